@@ -8,6 +8,7 @@ mod val;
 mod c07;
 mod c08;
 mod c18;
+mod c20;
 
 use vcommon::mon::Args;
 
@@ -28,6 +29,7 @@ fn run(args: &Args, mon: &mut vcommon::mon::Monitor) {
         "C07" => c07::run(mon, args),
         "C08" => c08::run(mon, args),
         "C18" => c18::run(mon, args),
+        "C20" => c20::run(mon, args),
         p => {
             eprintln!("e_api: unknown property {}", p);
             std::process::exit(2);
